@@ -192,6 +192,13 @@ def build_input(case, rows=None):
                 ws.append([None] * len(r))
                 continue
             ws.append([None if (c in ("n/a", "") and (i + j) % 2 == 0) else c for j, c in enumerate(r)])
+        if len(rows) % 2 == 0:
+            # a second worksheet, selected when the workbook was saved: the first worksheet is still the one that is read
+            ws2 = wb.create_sheet("notes")
+            ws2.append(list(b["columns"]))
+            for _k in range(len(rows) + 2):
+                ws2.append(["Zzotherworksheet"] * len(b["columns"]))
+            wb.active = 1
         path = os.path.join(env.scratch(), f"c07-{os.getpid()}.xlsx")
         wb.save(path)
         return SpreadsheetInput(path, tag_columns=["HED"], name="sheet")
